@@ -250,8 +250,8 @@ class Reader:
                 if len(econtent) > 1:
                     raise Unsupported('extension with several particles')
                 if econtent:
-                    if _local(econtent[0].tag) != 'sequence':
-                        raise Unsupported('extension content is not a sequence')
+                    if _local(econtent[0].tag) not in ('sequence', 'choice'):
+                        raise Unsupported('extension content is neither a sequence nor a choice')
                     ct.members += self.particles(econtent[0], nsmaps, tns, [econtent[0]])
                 for a in ek:
                     if _local(a.tag) == 'attribute':
